@@ -401,4 +401,8 @@ example : hasCompleteFramesC 13 [0, 0, 0, 4, 0, 0, 0, 0, 0, 0, 0, 0, 1] = .ok fa
     hasCompleteFramesC 11 [0, 0, 2, 1, 4, 0, 0, 0, 1, 0x82, 0x84] = .ok true := by decide
 example : cookieOfC [97, 61, 98] 0 = .ok { name := [97], value := some [98], position := 0 } := by decide
 
+/-- `Http2FingerprintExtractor::new`: `Vec::with_capacity(64 * 1024)` — the product of two literals
+fits `usize` on every supported target (≥ 32 bit), so the constant expression cannot overflow. -/
+theorem extractor_new_capacity_fits : 64 * 1024 < 2 ^ 32 := by decide
+
 end Huginn.Props.C01H2
